@@ -1,5 +1,7 @@
 """C10 — number text <-> double conversion.  NARROW CLAIM: only the refusal-atomicity clause is decided."""
-from ..facts import Broken, strip, const, walk, walk_eval, macro_name
+import re
+
+from ..facts import Broken, strip, const, walk, walk_eval, macro_name, show
 from ..interp import path
 from .. import cfgq
 
@@ -75,6 +77,108 @@ def run(prog, chk):
                   "parenthesis, terminator) every path since the last step over a digit has failed a digit test - no digit loop "
                   "stops on an accumulator or counter, which would leave digits behind and refuse a well-formed number", primary=False, floor=4)
     digit_runs(prog, fn, r4)
+
+    r5 = chk.rule("R5-digits-required", "the loop that scans the mantissa also steps over the decimal point, so the `no digits` test "
+                  "discounts it (mentions what the loop records when it consumes the point)", primary=False, floor=1)
+    if digits_required(prog, fn, r5) < 1:
+        raise Broken("cif_value_parse_numb: no scan loop accepting a non-digit with a following emptiness test was found")
+
+
+def digits_required(prog, fn, rule):
+    """A scan loop of cif_value_parse_numb that also steps over a non-digit (the decimal point) cannot tell `no digits` from `no
+    progress`: the test that refuses a digit-less mantissa, a comparison of the cursor with the position where the loop
+    started, has to discount the non-digits consumed - it mentions a local that the loop body assigns where the non-digit is
+    consumed.  For loops that accept digits only, cursor > start is sufficient."""
+    from .. import loops
+    text = fn.params[1]["name"]
+    # locals that are nothing but a copy of the character at the cursor (`UChar c = text[pos];`)
+    char_alias = {}
+    alias_defs = {}
+    for (b, i, r, x) in fn.eval_sites():
+        # keyed by declaration: two blocks may each declare a local of the same name
+        if x.get("k") == "decl":
+            for v in x.get("vars", []):
+                if v.get("init") is not None:
+                    alias_defs.setdefault((v["name"], v.get("did")), []).append(v["init"])
+        elif x.get("k") == "asg" and isinstance(strip(x.get("lhs")), dict) and strip(x["lhs"]).get("k") == "ref":
+            alias_defs.setdefault((strip(x["lhs"])["name"], strip(x["lhs"]).get("did")), []).append(x.get("rhs") if x.get("op") == "=" else x)
+    for nm, ds in alias_defs.items():
+        cur = set()
+        for d in ds:
+            d = strip(d)
+            if isinstance(d, dict) and d.get("k") == "index" and path(strip(d.get("base"))) == text and \
+                    isinstance(strip(d.get("idx")), dict) and strip(d["idx"]).get("k") == "ref":
+                cur.add(strip(d["idx"])["name"])
+            else:
+                cur.add(None)
+        if len(cur) == 1 and None not in cur:
+            char_alias[nm] = next(iter(cur))
+
+    def scan_char(e):
+        e = strip(e)
+        if isinstance(e, dict) and e.get("k") == "index" and path(strip(e.get("base"))) == text:
+            ix = strip(e.get("idx"))
+            if isinstance(ix, dict) and ix.get("k") == "ref":
+                return ix["name"]
+        if isinstance(e, dict) and e.get("k") == "ref" and (e.get("name"), e.get("did")) in char_alias:
+            return char_alias[(e["name"], e.get("did"))]
+        return None
+    n = 0
+    for lp in loops.natural_loops(fn):
+        # digit test and non-digit acceptance among the conditions of the loop's blocks
+        cursor, nondigit = None, []
+        for bid in lp.body:
+            c = cfgq.cond_of(fn, fn.blocks[bid])
+            if c is None:
+                continue
+            t = cfgq.cmp_test(c, lambda e: scan_char(e) is not None)
+            if t is None:
+                continue
+            v = [scan_char(x) for x in walk(c) if scan_char(x)]
+            if t[0] in ("<", "<=", ">", ">=") and t[1] in (0x2F, 0x30, 0x39, 0x3A):
+                cursor = v[0]
+            elif t[0] == "==" and not (0x30 <= t[1] <= 0x39):
+                nondigit.append((bid, t[1]))
+        if cursor is None or not nondigit:
+            continue
+        # advances over the cursor inside the loop?
+        adv = any(cursor in loops.rw(r)[1] for bid in lp.body for r in fn.blocks[bid].roots)
+        if not adv:
+            continue
+        assigned = set()
+        for bid in lp.body:
+            for r in fn.blocks[bid].roots:
+                for w in loops.rw(r)[1]:
+                    if w != cursor and re.match(r"^\w+$", w):
+                        assigned.add(w)
+        # start variables: locals assigned from the cursor in a block that reaches the loop header and is outside the loop
+        starts = set()
+        for (b, i, r, a) in fn.eval_sites("asg"):
+            if a.get("op") == "=" and path(strip(a.get("rhs"))) == cursor and b.id not in lp.body and lp.header in cfgq.reach(fn, [b.id]):
+                starts.add(path(strip(a.get("lhs"))))
+        # the first comparison after the loop that relates cursor and a start variable
+        exits = {s for bid in lp.body for s in fn.blocks[bid].succs if s is not None and s not in lp.body}
+        after = cfgq.reach(fn, list(exits)) | exits
+        cands = []
+        for (b, i, r, x) in fn.eval_sites("bin"):
+            if b.id in after and b.id not in lp.body and x.get("op") in ("<=", "<", ">", ">=", "=="):
+                names = {y.get("name") for y in walk(x) if y.get("k") == "ref"}
+                if cursor in names and names & starts:
+                    cands.append((x.get("l") or 0, x, names))
+        if not cands:
+            continue
+        cands.sort(key=lambda t_: t_[0])
+        line, x, names = cands[0]
+        n += 1
+        key = "L%s:%s" % (line, show(x)[:50])
+        if names & assigned:
+            rule.ok(key, "discounts the non-digit consumed by the loop through %s" % ", ".join(sorted(names & assigned)))
+        else:
+            rule.violation(fn.file, fn.name, line, "digitless-accepted:L%s" % line,
+                           "the loop at L%s also steps over the character %#x, yet the test `%s` that should refuse a mantissa "
+                           "without digits only asks whether the cursor moved: a lone decimal point passes as a number"
+                           % (fn.blocks[lp.header].term.get("l") if fn.blocks[lp.header].term else "?", nondigit[0][1], show(x)[:50]))
+    return n
 
 
 def digit_runs(prog, fn, rule):
